@@ -586,6 +586,11 @@ impl SlabRouter {
     ///
     /// Returns an error if snapshot save or WAL operations fail.
     pub fn checkpoint(&self, snapshot_path: &Path) -> Result<u64, SlabRouterError> {
+        // The log lock is held from before the snapshot is taken until the log has been
+        // truncated: a durable write logged and applied in between would be in neither the
+        // snapshot nor the log.
+        let mut wal_guard = self.wal.as_ref().map(parking_lot::Mutex::lock);
+
         // Save snapshot first
         self.save_to_file(snapshot_path)
             .map_err(|e| SlabRouterError::WalError(format!("Failed to save snapshot: {e}")))?;
@@ -596,9 +601,7 @@ impl SlabRouter {
         let checkpoint_id = self.checkpoint_counter.fetch_add(1, Ordering::SeqCst);
 
         // Log checkpoint marker and truncate WAL
-        if let Some(wal_mutex) = &self.wal {
-            let mut wal = wal_mutex.lock();
-
+        if let Some(wal) = wal_guard.as_mut() {
             let entry = WalEntry::Checkpoint {
                 snapshot_id: checkpoint_id,
             };
